@@ -378,6 +378,19 @@ def san(name):
     if name in EXTERN_C: s = 'cvx_' + s
     return s
 
+TSAN = {}      # LLVM type name -> C identifier; filled per module by set_type_names (injective: '.' and '_' both sanitise to '_')
+def tsan(name):
+    return TSAN.get(name) or san(name)
+def set_type_names(names):
+    TSAN.clear(); used = {}
+    for n in sorted(names):
+        c = san(n)
+        if c in used and used[c] != n:
+            k = 1
+            while '%s__c%d' % (c, k) in used: k += 1
+            c = '%s__c%d' % (c, k)
+        used[c] = n; TSAN[n] = c
+
 class Emitter:
     def __init__(s, m, boundary):
         s.m = m
@@ -413,13 +426,15 @@ class Emitter:
             b = t.bits
             base = {1: 'cv_i1', 8: 'cv_i8', 16: 'cv_i16', 32: 'cv_i32', 64: 'cv_i64'}.get(b)
             if base is None:
-                base = 'cv_i64' if b <= 64 else 'cv_i128'
+                # odd widths (clang's coroutine suspend index is an i2/i3/...): the storage type of LLVM's data layout = next power of two
+                # bytes (found by tools/difftest.py: i3 as an 8-byte field moved every later frame member)
+                base = 'cv_i8' if b <= 8 else 'cv_i16' if b <= 16 else 'cv_i32' if b <= 32 else 'cv_i64' if b <= 64 else 'cv_i128'
             return (base + ' ' + decl).strip()
         if k == 'void': return ('void ' + decl).strip()
         if k == 'fp': return ({'float': 'float', 'double': 'double'}.get(t.name, 'long double') + ' ' + decl).strip()
         if k == 'named':
             s.need_types[t.name] = True
-            return ('struct S_%s %s' % (san(t.name), decl)).strip()
+            return ('struct S_%s %s' % (tsan(t.name), decl)).strip()
         if k == 'struct':
             key = tstr(t)
             if key not in s.lit_structs:
@@ -1124,6 +1139,8 @@ class FnEmit:
             sx = {1: '(%s ? -1 : 0)', 8: '(signed char)%s', 16: '(short)%s', 32: '(cv_s32)%s', 64: '(cv_s64)%s'}[fb] % s.val(ins['x'])
             setd(ins['ty'], '(%s)(cv_s64)%s' % (em.ctype(ins['ty']), sx))
         elif op in ('add', 'sub', 'mul', 'udiv', 'urem', 'and', 'or', 'xor', 'shl', 'lshr'):
+            if ins['ty'].k == 'int' and ins['ty'].bits not in (1, 8, 16, 32, 64, 128) and op in ('add', 'sub', 'mul', 'shl'):
+                raise Unsupported('wrapping arithmetic on i%d (non-standard width)' % ins['ty'].bits)
             c = {'add': '+', 'sub': '-', 'mul': '*', 'udiv': '/', 'urem': '%', 'and': '&', 'or': '|', 'xor': '^', 'shl': '<<', 'lshr': '>>'}[op]
             setd(ins['ty'], '(%s)(%s %s %s)' % (em.ctype(ins['ty']), s.val(ins['a']), c, s.val(ins['b'])))
         elif op in ('sdiv', 'srem', 'ashr'):
@@ -1278,6 +1295,7 @@ def translate(ll_path, roots_rx, boundary_rx, out_prefix, names=None, no_names=F
     Writes out_prefix_decl.h, out_prefix_body.c, out_prefix.json. Returns summary dict."""
     text = open(ll_path).read()
     m = parse_module(text)
+    set_type_names(m.types.keys())
     for n, f in m.funcs.items():
         if f.blocks is None and not re.match(r'^(_Z|__cxa_|__gxx_|__clang_|llvm\.|_Unwind_|__dynamic_cast)', n):
             EXTERN_C.add(n)
@@ -1337,7 +1355,7 @@ def translate(ll_path, roots_rx, boundary_rx, out_prefix, names=None, no_names=F
             return
         for e in t.els: need_struct(e)
         fields = ' '.join(em.ctype(e, em.fld(T('named', name=name), i)) + ';' for i, e in enumerate(t.els)) or 'char __empty;'
-        defs.append('struct S_%s { %s }%s;' % (san(name), fields, ' __attribute__((packed))' if t.packed else ''))
+        defs.append('struct S_%s { %s }%s;' % (tsan(name), fields, ' __attribute__((packed))' if t.packed else ''))
     protos = []
     globs = []
     gdone = set()
@@ -1390,14 +1408,14 @@ def translate(ll_path, roots_rx, boundary_rx, out_prefix, names=None, no_names=F
         for key, (nm, t) in list(em.lit_structs.items()): need_struct(t)
         changed = before != (len(em.need_types), len(em.lit_structs))
     for n in m.types:
-        if n in em.need_types: decl.append('struct S_%s;' % san(n))
+        if n in em.need_types: decl.append('struct S_%s;' % tsan(n))
     decl += defs
     for g in em.used_globals:
         gi = m.globals.get(g)
         if gi is not None:
             decl.append('extern %s;' % em.ctype(gi['ty'], 'G_' + san(g)))
     for al, ln in talias.items():
-        decl.append('typedef struct S_%s %s;' % (san(ln), al))
+        decl.append('typedef struct S_%s %s;' % (tsan(ln), al))
     # type aliases taken from a function parameter: alias -> 'regex#k' (pointee type of parameter k; for closure types of lambdas)
     for al, spec_ in (ptypes or {}).items():
         rx, k = spec_.rsplit('#', 1)
